@@ -432,6 +432,7 @@ doTranslate(int back, char **tok, int ntok) {
 			printf("-");
 	}
 	if (argmask & 128) {
+		if (!ret) rulesLen = 0; /* a failing call does not report applied rules */
 		printf(" rules=");
 		if (rulesLen <= 0) printf(".");
 		for (i = 0; i < rulesLen && i < 512; i++) {
@@ -577,6 +578,8 @@ doTbl(char **tok, int ntok) {
 #include "lvh_meta.h"
 #include "lvh_log.h"
 #include "lvh_lex.h"
+#include "lvh_hyph.h"
+#include "lvh_cache.h"
 
 int
 main(int argc, char **argv) {
@@ -703,6 +706,8 @@ main(int argc, char **argv) {
 		} else if (doMetaOp(tok, ntok)) {
 		} else if (doLogOp(tok, ntok)) {
 		} else if (doLexOp(tok, ntok)) {
+		} else if (doHyphOp(tok, ntok)) {
+		} else if (doCacheOp(tok, ntok)) {
 		} else {
 			printf("BADOP\n");
 		}
